@@ -244,6 +244,8 @@ class Check:
         self.known = load_known()
         self.driver = None
         self.proof_ok = False
+        import cover
+        self.cover_on = cover.start(REPO)
 
     # -- proof side ---------------------------------------------------------
     def proof_side(self, extra_targets=()):
@@ -356,6 +358,23 @@ class Check:
         if self.driver:
             self.driver.close()
         self.cov['distinct_nontrivial'] = len(self.distinct)
+        try:
+            import antgen
+            if antgen.WARM['built']:
+                self.stats['objects_built'] = antgen.WARM['built']
+                self.stats['objects_with_history'] = antgen.WARM['warmed']
+        except Exception:
+            pass
+        if getattr(self, 'cover_on', False):
+            import cover
+            cover.stop()
+            fl = list(cover.ANCHORS.get(self.pid, []))
+            if self.pid in cover.MAIN_PROPS:
+                fl.append('main')
+            sm = cover.summary(fl)
+            self.stats['repo_coverage'] = sm
+            self.stats['repo_coverage_note'] = ('lines of the anchored /repo functions executed by this run (in-process only; '
+                                               'subprocess runs are not traced); informational, never a verdict')
         cov = dict(self.cov)
         cov['stats'] = self.stats
         cov['known_findings_hit'] = self.known_hits
